@@ -43,12 +43,13 @@ META = dict(
          'n_repeats*n_members nodes per replication (the chunking the renderers rely on); nested JSON -> flat applied to the '
          'nested JSON of the wired tree returns exactly the flat value list under decidable side conditions (everything '
          'consumed, A labels exactly on associated-field nodes, chunk lengths, leading id digit) that the driver evaluates on '
-         'every case; the link to the coder is proved for the template class quietList (elements of every class, sequences, '
-         'nested fixed / delayed replication, operators 201 202 203 205 207 208 221; uncompressed): by a step-by-step simulation '
-         'of the coder walk by the wiring pass, every successful decode of a subset is wired successfully, every decoded value '
-         'is held exactly once, the side conditions hold and decode -> wire -> nested JSON -> flat returns the decoded values '
-         '(_partial: outside that class - 204, 206, bitmap operators, compressed data - the link is not proved and is false for '
-         'the open findings F11a-d/F15). Correspondence (node tree, nested JSON without table text, nested JSON -> flat, error family, '
+         'every case; the link to the coder is proved for two template classes quietList (elements of every class, sequences, '
+         'nested fixed / delayed replication, operators 201 202 205 207 208 221, plus either 203 or 204YYY+031021/204000 i.e. '
+         'associated fields on plain elements; uncompressed): by a step-by-step simulation of the coder walk by the wiring pass, '
+         'every successful decode of a subset is wired successfully, every decoded value is held exactly once (member, factor, '
+         'associated-field attribute), the side conditions hold and decode -> wire -> nested JSON -> flat returns the decoded '
+         'values (_partial: outside those classes - 203/206 with 204, 206, bitmap operators, compressed data - the link is not '
+         'proved and is false for the open findings F11a-d/F15). Correspondence (node tree, nested JSON without table text, nested JSON -> flat, error family, '
          'side conditions) and the property oracle on the implementation (three conversions == flat JSON, four encodings '
          'equal, every flat index held once, every bitmap-linked value under the same owner in flat text, bitmap_links, node '
          'tree, nested JSON and nested text of every subset) on generated messages of every construct, messages whose subsets '
